@@ -150,6 +150,11 @@ func (v *Vue) evalSlot(ctx VueContext, node *html.Node, slotScope *SlotScope) ([
 				for _, n := range slotContent.Nodes {
 					copies = append(copies, helpers.DeepCloneNode(n))
 				}
+				// While this content is evaluated the slot is not supplied: a
+				// <slot> of the same name inside it shows its fallback instead
+				// of expanding itself without end.
+				delete(inheritedSlotScope.Slots, slotName)
+				defer func() { inheritedSlotScope.Slots[slotName] = slotContent }()
 				return v.evaluate(ctx, copies, 0)
 			}
 		}
